@@ -404,9 +404,13 @@ def _type_from_runtime(
     val: Any, ctx: Context, *, is_typeddict: bool = False, allow_unpack: bool = False
 ) -> Value:
     if isinstance(val, str):
-        return _eval_forward_ref(
-            val, ctx, is_typeddict=is_typeddict, allow_unpack=allow_unpack
-        )
+        if ctx.is_being_evaluted(val):
+            # The string refers to a name whose value is the string itself.
+            return AnyValue(AnySource.inference)
+        with ctx.add_evaluation(val):
+            return _eval_forward_ref(
+                val, ctx, is_typeddict=is_typeddict, allow_unpack=allow_unpack
+            )
     elif is_instance_of_typing_name(val, "ParamSpecArgs"):
         return ParamSpecArgsValue(get_origin(val))
     elif is_instance_of_typing_name(val, "ParamSpecKwargs"):
